@@ -134,7 +134,7 @@ fn small_list_op(rng: &mut Rng, tag: i64) -> Op {
         14 => if rng.chance(1, 2) { Op::Extend(vec![tag, tag + 50]) } else { Op::ExtendVia(*rng.pick(&["tuple", "iter"]), vec![tag]) },
         15 => Op::Insert(rng.below(4), tag),
         16 => Op::Remove(rng.below(3)),
-        17 => Op::Retain(rng.range(0, 2)),
+        17 => if RETAIN_VALUE_EXCLUDED.load(std::sync::atomic::Ordering::Relaxed) { Op::Size } else { Op::Retain(rng.range(0, 2)) },
         18 => Op::IsEmpty,
         19 => if rng.chance(1, 2) { Op::EqTo(vec![0, 1]) } else { Op::NeTo(vec![0]) },
         20 => Op::SwapWith(vec![tag, 7]),
@@ -147,6 +147,8 @@ fn small_list_op(rng: &mut Rng, tag: i64) -> Op {
 
 /// shape filter: map `==` is generated only when F-C19-10 is not an open finding
 static MAP_EQ_EXCLUDED: std::sync::atomic::AtomicBool = std::sync::atomic::AtomicBool::new(false);
+/// shape filter: list.retain with a value is generated only when F-C19-11 is not an open finding
+static RETAIN_VALUE_EXCLUDED: std::sync::atomic::AtomicBool = std::sync::atomic::AtomicBool::new(false);
 
 fn small_map_op(rng: &mut Rng, v: i64) -> Op {
     let k = rng.range(0, 4);
@@ -745,6 +747,17 @@ fn map_eq_history(rounds: usize) -> Stress {
             vec![Op::Rem(1), Op::MClear],
             vec![Op::Put(4, 603000), Op::Ins1(1)],
         ],
+        rounds,
+        rewrite: None,
+        delays: vec![],
+    }
+}
+
+fn retain_value_history(rounds: usize) -> Stress {
+    Stress {
+        kind: "witness-retain-value",
+        init: St::L(vec![2, 0, 1]),
+        progs: vec![vec![Op::Retain(0), Op::Retain(0)], vec![Op::Remove(0)], vec![Op::Set(0, 602000)], vec![Op::Push(603000), Op::Pop]],
         rounds,
         rewrite: None,
         delays: vec![],
